@@ -539,7 +539,7 @@ func init() {
 	for _, n := range []string{
 		"(*sync.Mutex).Lock", "(*sync.Mutex).Unlock", "(*sync.RWMutex).Lock", "(*sync.RWMutex).Unlock",
 		"(*sync.RWMutex).RLock", "(*sync.RWMutex).RUnlock", "(*sync.WaitGroup).Add", "(*sync.WaitGroup).Done",
-		"(*sync.WaitGroup).Wait", "(*sync.Pool).Put", "runtime.KeepAlive", "runtime.SetFinalizer", "runtime.Gosched",
+		"(*sync.WaitGroup).Wait", "runtime.KeepAlive", "runtime.SetFinalizer", "runtime.Gosched",
 		"(*sync.Cond).Broadcast", "(*sync.Cond).Signal", "runtime.GC", "(*internal/godebug.Setting).IncNonDefault",
 		"os.Exit", "time.Sleep", "sync.runtime_registerPoolCleanup", "sync.runtime_notifyListCheck",
 		"(*github.com/google/trillian/monitoring.InertFloat).Inc", "(*github.com/google/trillian/monitoring.InertFloat).Dec",
@@ -560,8 +560,32 @@ func init() {
 	reg("os.Getenv", func(fr *frame, fn *ssa.Function, args []value) value { return "" })
 	reg("syscall.Getenv", func(fr *frame, fn *ssa.Function, args []value) value { return tuple{"", fr.in.ts.False} })
 	reg("(*sync.Mutex).TryLock", func(fr *frame, fn *ssa.Function, args []value) value { return fr.in.ts.True })
+	// sync.Pool: Get hands back the item most recently Put by the same goroutine, if any (the
+	// behaviour of the real per-P cache on one P; a legal behaviour of any Pool), else New().
+	poolKey := func(fr *frame, p *value) string {
+		g := 0
+		if fr.in.sch.on && fr.in.sch.cur != nil {
+			g = fr.in.sch.cur.id
+		}
+		return fmt.Sprintf("pool:%p:%d", p, g)
+	}
+	reg("(*sync.Pool).Put", func(fr *frame, fn *ssa.Function, args []value) value {
+		p := args[0].(*value)
+		if isNilValue(args[1]) {
+			return nil
+		}
+		key := poolKey(fr, p)
+		items, _ := fr.in.ghost[key].([]value)
+		fr.in.ghost[key] = append(items[:len(items):len(items)], args[1])
+		return nil
+	})
 	reg("(*sync.Pool).Get", func(fr *frame, fn *ssa.Function, args []value) value {
 		p := args[0].(*value)
+		key := poolKey(fr, p)
+		if items, _ := fr.in.ghost[key].([]value); len(items) > 0 {
+			fr.in.ghost[key] = items[:len(items)-1]
+			return items[len(items)-1]
+		}
 		st := (*p).(structure)
 		// field "New" is the last field of sync.Pool
 		newFn := st[len(st)-1]
